@@ -184,8 +184,16 @@ def search(ctx):
     for i in range(n):
         sc, name, mk, det = rand_case(rng, lens=(i % 3 == 0))
         pol = rand_case.force_pol or T.rand_pol(rng)
+        pol_num = np.array([float(pol[0]), float(pol[1])])
+        pol_form = "tuple"
+        if i % 5 == 3:
+            # the same direction given as an array or as a labelled vector (the form holopy itself stores), any length
+            pol_form = ["ndarray", "labelled-vector", "list3"][(i // 5) % 3]
+            pol = (np.array(pol, dtype=float) if pol_form == "ndarray" else
+                   xr.DataArray(np.array([float(pol[0]), float(pol[1]), 0.0]), dims='vector', coords={'vector': ['x', 'y', 'z']}) if pol_form == "labelled-vector" else
+                   [float(pol[0]), float(pol[1]), 0.0])
         s = float(rng.choice([0.0, 1.0, rng.uniform(0.3, 1.2), -0.7]))
-        info = dict(theory=name, scatterer=repr(sc), pol=list(pol), scaling=s, detector=dict(dims=list(det.dims), shape=list(det.shape)))
+        info = dict(theory=name, scatterer=repr(sc), pol=pol_num.tolist(), pol_form=pol_form, scaling=s, detector=dict(dims=list(det.dims), shape=list(det.shape)))
         ctx.tried("formula", (name, type(sc).__name__, tuple(det.shape), i))
         snap = (_snapshot(det), repr(sc))
         try:
@@ -198,7 +206,7 @@ def search(ctx):
             ctx.violation("C01:raises:%s:%s" % (name, type(ex).__name__), "%s on %s raised %r" % (name, type(sc).__name__, ex),
                           dict(kind="raises", **info))
             continue
-        p = to_vector(pol).values
+        p = pol_num / math.hypot(pol_num[0], pol_num[1])      # the unit reference vector, computed here (not by the code under test)
         E = fld
         want = (np.abs(s * E.sel(vector='x') + p[0]) ** 2 + np.abs(s * E.sel(vector='y') + p[1]) ** 2)
         sc_ = max(1.0, float(np.abs(want).max()))
@@ -228,7 +236,7 @@ def search(ctx):
         for res, nm in ((holo, "holo"), (inten, "intensity"), (fld, "field")):
             a = res.attrs
             if not (a.get("medium_index") == T.NMED and a.get("illum_wavelen") == T.WL and a.get("illum_polarization") is not None and
-                    np.allclose(np.asarray(a.get("illum_polarization")), p, atol=1e-15)):
+                    np.allclose(np.asarray(a.get("illum_polarization")).ravel()[:2], p, atol=1e-15) and abs(np.asarray(a.get("illum_polarization")).ravel()[2]) == 0):
                 ctx.violation("C01:attrs:%s" % nm, "%s: result metadata not updated with the optics passed in: %r" % (nm, {k: a.get(k) for k in ("medium_index", "illum_wavelen")}),
                               dict(kind="attrs", **info))
         if (_snapshot(det), repr(sc)) != snap:
